@@ -33,6 +33,10 @@ backend":
   Y-R6  remainder identity: every reachable exit of the Python sqrtrem returns
         a remainder that is, as a polynomial, x - root^2 (root-offset
         interpreter, sa/rootoff.py)
+  Y-R8  every argument of bitcount is non-negative (python_bitcount returns 0
+        for a negative integer, gmpy's bit_length that of the absolute value):
+        flow-sensitive sign analysis of integer locals (sa/intsign.py), the
+        frozen parameter / site contracts of sa/nonneg.py for the rest
   Y-R7  floor-root exits: every reachable exit of isqrt_python / sqrtrem_python
         returns exactly floor(sqrt(x)) for every error of the approximate root
         (-1, 0, +1) and every position of x between two squares
@@ -206,6 +210,44 @@ def check_recursive_tails(run, rel, name, alts):
                        'backends split the problem differently' % (d.name, ref[1].name), line=d.lineno))
 
 
+def effective_params(name, d):
+    """parameters of alternative d that influence its result: read anywhere except as the same-position argument of
+    a call of the dispatched name itself (handing a parameter on to the recursion is not a use)"""
+    params = [a.arg for a in d.args.args]
+    eff = set()
+    passthrough = set()
+    for c in ast.walk(d):
+        if isinstance(c, ast.Call) and norm(c.func) == name:
+            for i, a in enumerate(c.args):
+                if isinstance(a, ast.Name) and i < len(params) and a.id == params[i]:
+                    passthrough.add(id(a))
+    for x in ast.walk(d):
+        if isinstance(x, ast.Name) and isinstance(x.ctx, ast.Load) and x.id in params and id(x) not in passthrough:
+            eff.add(x.id)
+    return params, eff
+
+
+def check_effective_params(run, rel, name, alts):
+    """Y-R9.  Alternatives with the same signature must also USE the same parameters: a parameter that shapes the
+    result on one back end and is ignored on the other (numeral_gmpy took `digits` and formatted with gmpy's own
+    alphabet) makes the same call return different results.  Handing the parameter on to the recursion of the
+    dispatched name does not count as a use."""
+    info = [(label, d) + effective_params(name, d) for label, d in alts]
+    for i, (label, d, params, eff) in enumerate(info):
+        for label2, d2, params2, eff2 in info[:i] + info[i + 1:]:
+            if params != params2:
+                continue                    # Y-R1 reports it
+            lost = sorted(set(eff2) - set(eff))
+            if lost:
+                run.fail(F('Y-R9', rel, d.name, 'def %s(%s)' % (d.name, norm(d.args)),
+                           '%s never uses its parameter%s %s, which %s uses: with a non-default value the two back '
+                           'ends return different results' % (d.name, 's' if len(lost) > 1 else '',
+                                                              ', '.join(lost), d2.name), line=d.lineno))
+                break
+        else:
+            run.ok('Y-R9', '%s: %s uses every parameter its siblings use' % (name, d.name))
+
+
 def check_forks(run, ix):
     forks = discover_forks(ix)
     names = set()
@@ -236,6 +278,7 @@ def check_forks(run, ix):
                 alts.append(('default', d))
             if len(alts) >= 2:
                 check_recursive_tails(run, rel, name, alts)
+                check_effective_params(run, rel, name, alts)
             if len(alts) >= 2:
                 ref_label, ref = alts[0]
                 for label, d in alts[1:]:
@@ -592,6 +635,41 @@ def enclosing_func(node):
     return '<module>'
 
 
+def check_bitcount_args(run, ix):
+    """Y-R8 (see the module docstring and sa/intsign.py)."""
+    from .. import intsign, nonneg
+    cache = {}
+    used_sites = set()
+    for f, call in nonneg.bitcount_sites(ix):
+        if f not in cache:
+            cache[f] = intsign.analyse(f)
+        s = cache[f].get(call)
+        arg = norm(call.args[0])
+        if s is not None and s <= intsign.NONNEG:
+            run.ok('Y-R8', '%s: bitcount(%s) -- argument has sign set %s' % (f.qualname, arg, sorted(s)))
+            continue
+        if s is None:
+            # the call lies in code the interpretation never reached (after an unconditional return): no obligation
+            run.ok('Y-R8', '%s: bitcount(%s) is unreachable' % (f.qualname, arg))
+            continue
+        key = (f.qualname, arg)
+        if key in nonneg.SITE_CONTRACT:
+            used_sites.add(key)
+            run.ok('Y-R8', '%s: bitcount(%s) -- by the recorded reason: %s' % (f.qualname, arg, nonneg.SITE_CONTRACT[key][:80]))
+            continue
+        st = call
+        while not isinstance(st, ast.stmt):
+            st = st._parent
+        run.fail(Finding('Y-R8', f.file, f.qualname, norm(st),
+                         '`bitcount(%s)`: the argument is not shown to be non-negative (possible signs %s).  For a '
+                         'negative integer the Python back end returns 0 and gmpy the bit length of the absolute value, '
+                         'so whatever is derived from the count (guard bits, shifts) differs between the back ends'
+                         % (arg, ', '.join({-1: 'negative', 0: 'zero', 1: 'positive'}[x] for x in sorted(s))),
+                         line=call.lineno))
+    # a recorded reason that is no longer needed (the site vanished or became decidable) is only reported
+    run.stats['Y-R8 unused site contracts'] = sorted('%s:%s' % k for k in set(nonneg.SITE_CONTRACT) - used_sites)
+
+
 def run(run, ix, tier):
     run.explanation = (
         'gmpy2 is not installed, so no run can compare back ends; the source is the only view of the gmpy '
@@ -620,4 +698,7 @@ def run(run, ix, tier):
     check_kernel_siblings(run, ix)
     check_tables(run, ix)
     check_root_exits(run, ix)
+    run.rule('Y-R9', floor=4, desc='back-end alternatives use the same parameters')
+    run.rule('Y-R8', floor=60, desc='every argument of bitcount is non-negative (the back ends disagree on negative integers)')
+    check_bitcount_args(run, ix)
     run.stats['backend_dependent_names'] = n
